@@ -1,18 +1,23 @@
-import IrVerif.Lemmas.SerdeLeaf
+import IrVerif.Lemmas.SerdeModel
 /-!
 C02 — ONNX proto -> IR -> proto is lossless (DESIGN.md section 5, C02).
 
 The theorems are about the model `IrVerif/Model/Serde.lean` (a transcription of
 `src/onnx_ir/serde.py`, tied to it by `harness/c02.py` on every run).  `des*` = deserialize,
-`ser*` = serialize, `norm*` = the documented normalisations, `wf*` = the decidable `WFproto`.
+`ser*` = serialize, `norm*` = the documented normalisations (a canonical form), `wf*` = the
+decidable `WFproto`.
 
-Stage A (this part): every leaf message round-trips, for all inputs.
+Stage A: every leaf message round-trips, for all inputs.
+Stage B: nodes and graphs with arbitrarily nested subgraphs (values captured from enclosing
+scopes), functions and models: `WFproto p -> serialize (deserialize p) = norm p`.
 -/
 namespace IrVerif.Serde
 open IrVerif.Proto
 
 /-- deserialize then serialize an attribute -/
 def rtAttr (scopes : Scopes) (a : AttrP) : Except Err AttrP := desAttr scopes a >>= serAttr scopes
+
+/-! ## stage A -/
 
 /-- a dimension (value / parameter / unknown, with denotation) round-trips exactly -/
 theorem C02_dim (d : DimP) : serDim (desDim d) = d := serDim_desDim d
@@ -32,9 +37,8 @@ theorem C02_maps (es : List Entry) :
 /-- a TypeProto of arbitrary nesting round-trips exactly: element types, denotations at every
 level, and the shape, which lands on the leaf tensor type again -/
 theorem C02_type (t : TypeP) (h : wfType t = true) :
-    ∃ ty sh, desTypeAndShape t = .ok (ty, sh) ∧ serTypeAndShape ty sh = t := by
-  obtain ⟨ty, sh, h1, h2, h3⟩ := type_roundtrip t h
-  exact ⟨ty, sh, by simp [desTypeAndShape, h1, h2, bind, Except.bind], h3⟩
+    ∃ ty sh, desTypeAndShape t = .ok (ty, sh) ∧ serTypeAndShape ty sh = t :=
+  typeAndShape_roundtrip t h
 
 example : wfType (.optional (.sequence (.tensor (some 1) (some [⟨.param "N", "DATA_BATCH"⟩, ⟨.unset, ""⟩]) "t") "s") "o") = true := by
   decide
@@ -53,7 +57,7 @@ theorem C02_tensor_proto_backed (p : TensorP) (hloc : p.dataLocation ≠ 1) (hs 
   tensor_roundtrip_proto_backed p hloc hs
 
 /-- string tensors -/
-theorem C02_tensor_string (p : TensorP) (h : wfTensor p = true) (hloc : p.dataLocation ≠ 1)
+theorem C02_tensor_string (p : TensorP) (h : wfTensor p = true) (_hloc : p.dataLocation ≠ 1)
     (_hs : p.dataType = 8) : ∃ t, desTensor p = .ok t ∧ serTensor t = normTensor p := by
   obtain ⟨t, h1, h2, _⟩ := tensor_roundtrip p h
   exact ⟨t, h1, h2⟩
@@ -71,55 +75,14 @@ example : wfTensor
     = true := by
   decide
 
-theorem shardedDim_roundtrip (d : ShardedDimP) : serShardedDim (desShardedDim d) = d := by
-  cases d with
-  | mk axis simple =>
-    simp only [serShardedDim, desShardedDim, List.map_map, ShardedDimP.mk.injEq, true_and]
-    have : (serSimpleShard ∘ desSimpleShard) = id := by
-      funext s; cases s; simp [serSimpleShard, desSimpleShard, serDimVal_desDimVal]
-    rw [this, List.map_id]
-
-theorem shardingSpecs_roundtrip (scopes : Scopes) (ss : List ShardingSpecP)
-    (h : ss.all wfShardingSpec = true) :
-    serShardingSpecs scopes (ss.map (desShardingSpec scopes)) = .ok ss := by
-  induction ss with
-  | nil => rfl
-  | cons s ss ih =>
-    simp only [List.all_cons, Bool.and_eq_true] at h
-    have hs : serShardingSpec scopes (desShardingSpec scopes s) = .ok s := by
-      have hne : s.tensorName.isEmpty = false := by simpa [wfShardingSpec] using h.1
-      have hdims : (s.dims.map desShardedDim).map serShardedDim = s.dims := by
-        simp [List.map_map, Function.comp_def, shardedDim_roundtrip]
-      cases s with
-      | mk tn dev gm dims =>
-        simp only at hne hdims
-        simp only [desShardingSpec, hne, Bool.false_eq_true, if_false]
-        cases hr : resolve scopes tn with
-        | some r => simp [serShardingSpec, resolve_refName hr, hne, hdims]
-        | none => simp [serShardingSpec, hne, hdims]
-    simp only [List.map_cons, serShardingSpecs, hs, ih h.2, bind, Except.bind]
-
 /-- device configurations: model-level configurations round-trip exactly; node-level
 configurations (configuration id, sharding specs with tensor references, device groups, sharded
 dimensions, pipeline stage) round-trip exactly whenever ids and tensor names are non-empty -/
 theorem C02_devcfg :
     (∀ c : DevCfgP, serModelCfg (desModelCfg c) = c) ∧
     (∀ (scopes : Scopes) (cs : List NodeDevCfgP), cs.all wfNodeDevCfg = true →
-      serNodeDevCfgs scopes (cs.map (desNodeDevCfg scopes)) = .ok cs) := by
-  refine ⟨fun c => by cases c; rfl, ?_⟩
-  intro scopes cs h
-  induction cs with
-  | nil => rfl
-  | cons c cs ih =>
-    simp only [List.all_cons, Bool.and_eq_true] at h
-    have hc : serNodeDevCfg scopes (desNodeDevCfg scopes c) = .ok c := by
-      simp only [wfNodeDevCfg, Bool.and_eq_true, Bool.not_eq_true'] at h
-      cases c with
-      | mk id specs stage =>
-        simp only at h
-        simp [desNodeDevCfg, serNodeDevCfg, h.1.1, shardingSpecs_roundtrip scopes specs h.1.2,
-          bind, Except.bind]
-    simp only [List.map_cons, serNodeDevCfgs, hc, ih h.2, bind, Except.bind]
+      serNodeDevCfgs scopes (cs.map (desNodeDevCfg scopes)) = .ok cs) :=
+  ⟨fun c => by cases c; rfl, nodeDevCfgs_roundtrip⟩
 
 /-- INT / FLOAT / STRING attributes (name, doc string, value; a string that is not UTF-8 is kept
 as bytes) round-trip exactly -/
@@ -128,17 +91,6 @@ theorem C02_attr_scalar (scopes : Scopes) (n d : String) :
     (∀ b, rtAttr scopes (.float n d b) = .ok (.float n d b)) ∧
     (∀ s, rtAttr scopes (.string n d s) = .ok (.string n d s)) := by
   refine ⟨?_, ?_, ?_⟩ <;> intro x <;> simp [rtAttr, desAttr, serAttr, bind, Except.bind]
-
-theorem desBStrs_utf8 (xs : List BStr) (h : xs.all bstrIsUtf8 = true) :
-    ∃ ys, desBStrs xs = .ok ys ∧ serBStrs ys = xs := by
-  induction xs with
-  | nil => exact ⟨[], rfl, rfl⟩
-  | cons x xs ih =>
-    simp only [List.all_cons, Bool.and_eq_true] at h
-    obtain ⟨ys, h1, h2⟩ := ih h.2
-    cases x with
-    | utf8 s => exact ⟨s :: ys, by simp [desBStrs, h1, bind, Except.bind], by simp [serBStrs] at h2 ⊢; exact h2⟩
-    | raw b => simp [bstrIsUtf8] at h
 
 /-- INTS / FLOATS / STRINGS attributes round-trip exactly -/
 theorem C02_attr_list (scopes : Scopes) (n d : String) :
@@ -152,16 +104,6 @@ theorem C02_attr_list (scopes : Scopes) (n d : String) :
     obtain ⟨ys, h1, h2⟩ := desBStrs_utf8 xs h
     simp [rtAttr, desAttr, serAttr, bind, Except.bind, h1, h2]
 
-theorem desTensors_roundtrip (ts : List TensorP) (h : ts.all wfTensor = true) :
-    ∃ xs, desTensors ts = .ok xs ∧ xs.map serTensor = ts.map normTensor := by
-  induction ts with
-  | nil => exact ⟨[], rfl, rfl⟩
-  | cons t ts ih =>
-    simp only [List.all_cons, Bool.and_eq_true] at h
-    obtain ⟨xs, h1, h2⟩ := ih h.2
-    obtain ⟨x, g1, g2, _⟩ := tensor_roundtrip t h.1
-    exact ⟨x :: xs, by simp [desTensors, g1, h1, bind, Except.bind], by simp [g2, h2]⟩
-
 /-- TENSOR / TENSORS attributes: every tensor round-trips (see `C02_tensor_*`) -/
 theorem C02_attr_tensor (scopes : Scopes) (n d : String) :
     (∀ t, wfTensor t = true → rtAttr scopes (.tensor n d t) = .ok (.tensor n d (normTensor t))) ∧
@@ -174,18 +116,6 @@ theorem C02_attr_tensor (scopes : Scopes) (n d : String) :
   · intro ts h
     obtain ⟨xs, h1, h2⟩ := desTensors_roundtrip ts h
     simp [rtAttr, desAttr, serAttr, bind, Except.bind, h1, h2]
-
-theorem desTypeAndShapes_roundtrip (tps : List TypeP) (h : tps.all wfType = true) :
-    ∃ xs, desTypeAndShapes tps = .ok xs ∧ serTypeAndShapes xs = tps := by
-  induction tps with
-  | nil => exact ⟨[], rfl, rfl⟩
-  | cons t ts ih =>
-    simp only [List.all_cons, Bool.and_eq_true] at h
-    obtain ⟨xs, h1, h2⟩ := ih h.2
-    obtain ⟨ty, sh, g1, g2⟩ := C02_type t h.1
-    refine ⟨(ty, sh) :: xs, by simp [desTypeAndShapes, g1, h1, bind, Except.bind], ?_⟩
-    simp only [serTypeAndShapes, List.map_cons, g2] at h2 ⊢
-    rw [h2]
 
 /-- TYPE_PROTO / TYPE_PROTOS attributes round-trip exactly -/
 theorem C02_attr_type (scopes : Scopes) (n d : String) :
@@ -203,5 +133,101 @@ theorem C02_attr_type (scopes : Scopes) (n d : String) :
 theorem C02_attr_ref (scopes : Scopes) (n d r : String) (t : Int) (h : 0 ≤ t ∧ t ≤ 14) :
     rtAttr scopes (.ref n d r t) = .ok (.ref n d r t) := by
   simp [rtAttr, desAttr, serAttr, bind, Except.bind, h]
+
+/-! ## stage B -/
+
+/-- every attribute, including GRAPH / GRAPHS attributes whose subgraphs (nested to any depth)
+capture values of the enclosing scopes `scopes`: the round trip is the canonical form -/
+theorem C02_attr (scopes : Scopes) (a : AttrP) (h : wfAttr scopes a = true) :
+    rtAttr scopes a = .ok (normAttr a) := by
+  obtain ⟨x, h1, h2, _⟩ := attr_rt scopes a h
+  simp [rtAttr, h1, h2, bind, Except.bind]
+
+/-- a node inside the scope whose table is `tbl` (enclosing scopes `outer`): inputs resolve to the
+declared values and serialize back to the same names, outputs likewise (trailing unnamed outputs
+trimmed), every attribute and subgraph, metadata, multi-device configuration round-trip; the table
+is not changed (no placeholder is created). -/
+theorem C02_node (outer : Scopes) (vis : List ValueInfoP) (q : List AnnotP) (ver : Option Int)
+    (tbl : List IRValue) (n : NodeP) (h : wfNode (tableNames tbl :: outer) n = true)
+    (hver : verAllows ver = true ∨ nodeHasDevCfg n = false) :
+    ∃ x, desNode outer vis q tbl n = .ok (x, tbl) ∧
+      serNode (tableNames tbl :: outer) ver x = .ok (normNode n) := by
+  obtain ⟨x, h1, h2, _⟩ := node_rt outer vis q ver tbl n h hver
+  exact ⟨x, h1, h2⟩
+
+/-- a graph in any scope chain `outer` (so: any subgraph, at any nesting depth, capturing outer
+values): `serialize (deserialize g) = norm g` -/
+theorem C02_graph (outer : Scopes) (ver : Option Int) (g : GraphP) (h : wfGraph outer g = true)
+    (hver : verAllows ver = true ∨ graphHasDevCfg g = false) :
+    ∃ x, desGraph outer g = .ok x ∧ serGraph outer ver x = .ok (normGraph g) :=
+  graph_rt outer ver g h hver
+
+/-- non-vacuity: a graph with an input, an initializer that is also an input, an initializer with
+value_info, a quantization annotation, metadata, and an `If`-like node whose `then_branch` subgraph
+captures the outer value `x`, uses an outer initializer, carries a reference attribute and a
+multi-device configuration, and returns an outer value. -/
+def exampleGraph : GraphP :=
+  .mk "main" "doc"
+    [ .mk ["x", "w", ""] ["y", ""] "n0" "If" "ai.onnx" "" "" 
+        [ .graph "then_branch" ""
+            (.mk "then" "" 
+              [ .mk ["x", "b"] ["t"] "n1" "Add" "" "ov" "d"
+                  [.ref "alpha" "" "alpha_outer" 1, .ints "axes" "" [0, -1]]
+                  [⟨"k", "v"⟩]
+                  [⟨"cfg0", [⟨"x", [0, 1], [⟨0, [0, 1]⟩], [⟨0, [⟨.value 2, 2⟩]⟩]⟩], some 1⟩] ]
+              [] [] [⟨"t", .tensor (some 1) none "", "", []⟩, ⟨"x", .unset "", "", []⟩] [] [] []),
+          .int "flag" "" 1 ]
+        [⟨"b", "2"⟩, ⟨"a", "1"⟩] [] ]
+    [ { emptyTensorP with name := "w", dataType := 1, dims := [2], floatData := [0, 1065353216] },
+      { emptyTensorP with name := "b", dataType := 7, dims := [], rawData := some "0100000000000000" } ]
+    [ ⟨"x", .tensor (some 1) (some [⟨.param "N", ""⟩, ⟨.value 2, "C"⟩]) "", "", []⟩,
+      ⟨"w", .tensor (some 1) (some [⟨.value 2, ""⟩]) "", "", []⟩ ]
+    [ ⟨"y", .sequence (.tensor (some 1) (some []) "") "SEQ", "out", [⟨"m", "1"⟩]⟩ ]
+    [ ⟨"b", .tensor (some 7) (some []) "", "", []⟩, ⟨"unreferenced", .tensor (some 1) none "", "", []⟩ ]
+    [ ⟨"x", [⟨"SCALE_TENSOR", "s"⟩]⟩ ]
+    [⟨"z", "1"⟩, ⟨"a", "2"⟩]
+
+example : wfGraph [] exampleGraph = true := by decide
+
+/-- a model-local function (with overload, attribute declarations and defaults, reference
+attributes in its nodes, value_info for inputs and intermediate values from IR version 10 on):
+`serialize (deserialize f) = norm f` -/
+theorem C02_function (ver : Int) (f : FunctionP) (h : wfFunction ver f = true)
+    (hver : 11 ≤ ver ∨ nodesHaveDevCfg f.nodes = false) :
+    ∃ x, desFunction f = .ok x ∧
+      serFunction (some ver) (decide (ver ≥ 10)) x = .ok (normFunction (decide (ver ≥ 10)) f) := by
+  obtain ⟨x, h1, h2, _⟩ := function_rt ver f h hver
+  exact ⟨x, h1, h2⟩
+
+/-- a whole model, any IR version: `WFproto m -> serialize (deserialize m) = norm m`.
+(`wfModel` contains the IR-version gates: multi-device fields only from IR 11, function
+value_info only from IR 10.) -/
+theorem C02_model (m : ModelP) (h : wfModel m = true) :
+    ∃ x, desModel m = .ok x ∧ serModel x = .ok (normModel m) :=
+  model_rt m h
+
+/-- non-vacuity of `wfModel`: IR version 11, the graph above (nested subgraph capturing an outer
+value), two functions `custom::f` that differ only in their overload, the second with a reference
+attribute, value_info and a node calling the first overload. -/
+def exampleModel : ModelP :=
+  { irVersion := 11, producerName := "p", producerVersion := "", domain := "", modelVersion := 3,
+    doc := "m", opsetImport := [⟨"", 18⟩, ⟨"custom", 1⟩], metadata := [⟨"k", "v"⟩],
+    graph := exampleGraph,
+    functions :=
+      [ { name := "f", domain := "custom", overload := "", doc := "", inputs := ["a"], outputs := ["r"],
+          attrNames := ["alpha"], attrProtos := [.int "beta" "" 2],
+          nodes := [.mk ["a"] ["r"] "" "Relu" "" "" "" [] [] []],
+          opsetImport := [⟨"", 18⟩], valueInfo := [], metadata := [] },
+        { name := "f", domain := "custom", overload := "ov1", doc := "d", inputs := ["a", "b"],
+          outputs := ["r"], attrNames := ["alpha"], attrProtos := [],
+          nodes := [ .mk ["a", "b"] ["t", ""] "n" "f" "custom" "" "" [.ref "alpha" "" "alpha" 1] [] [],
+                     .mk ["t"] ["r"] "" "Identity" "" "" "" [] [] [] ],
+          opsetImport := [⟨"", 18⟩, ⟨"custom", 1⟩],
+          valueInfo := [⟨"a", .tensor (some 1) (some [⟨.param "N", ""⟩]) "", "", []⟩,
+                        ⟨"t", .tensor (some 1) none "", "doc", [⟨"m", "1"⟩]⟩],
+          metadata := [⟨"z", "1"⟩] } ],
+    configuration := [⟨"cfg0", 2, ["CPU", "GPU"]⟩] }
+
+example : wfModel exampleModel = true := by decide
 
 end IrVerif.Serde
